@@ -149,6 +149,19 @@ func init() {
 			panic(targetPanic{v: iface{types.Typ[types.String], "crypto/cipher: incorrect nonce length given to GCM"}, site: fr.site()})
 		}
 		box := p.freshBytes("box", len(pt)+16)
+		// Seal is a function, and an injective one per (key, nonce, ad):
+		// relate the fresh box to every earlier box of the same length
+		for _, e := range p.crypto().seals {
+			if len(e.pt) != len(pt) {
+				continue
+			}
+			same := p.andv(p.andv(p.seqEq(e.key, key), p.seqEq(e.nonce, nonce)), p.seqEq(e.ad, ad))
+			ptEq := p.seqEq(e.pt, pt)
+			boxEq := p.seqEq(e.box, box)
+			// same ∧ ptEq ⇒ boxEq ;  same ∧ boxEq ⇒ ptEq
+			p.assume(p.orv(p.notv(p.andv(same, ptEq)), boxEq))
+			p.assume(p.orv(p.notv(p.andv(same, boxEq)), ptEq))
+		}
 		p.crypto().seals = append(p.crypto().seals, sealEntry{cloneVals(key), cloneVals(nonce), cloneVals(ad), cloneVals(pt), box})
 		return append(cloneVals(dst), box...)
 	}
